@@ -47,6 +47,8 @@ func headKey(t *Term) string {
 		return "app|" + t.Name
 	case "select":
 		return "select|" + t.Args[0].Sort.Name
+	case "store":
+		return "store|" + t.Sort.Name
 	}
 	return ""
 }
@@ -202,11 +204,50 @@ func (in *instantiator) candidates(q *Term) [][]*Term {
 		cset[v] = map[*Term]bool{}
 	}
 	for _, p := range in.patterns(q) {
+		if p.Op == "store" {
+			continue
+		}
 		for _, g := range in.byHead[headKey(p)] {
 			sub := map[*Term]*Term{}
 			if matchTerm(p, g, own, sub) {
 				for v, t := range sub {
 					cset[v][t] = true
+				}
+			}
+		}
+		// select(P, idx) with ground store chain P: selects on any array of the chain match
+		if p.Op == "select" && !p.Args[0].fv && p.Args[0].Op == "store" {
+			chain := map[*Term]bool{}
+			for a := p.Args[0]; ; a = a.Args[0] {
+				chain[a] = true
+				if a.Op != "store" {
+					break
+				}
+			}
+			for _, g := range in.byHead[headKey(p)] {
+				if chain[g.Args[0]] && g.Args[0] != p.Args[0] {
+					sub := map[*Term]*Term{}
+					if matchTerm(p.Args[1], g.Args[1], own, sub) {
+						for v, t := range sub {
+							cset[v][t] = true
+						}
+					}
+				}
+			}
+		}
+		// select(P, x): indices written into an array matching P are candidates for x
+		if p.Op == "select" && p.Args[1].Op == "var" && own[p.Args[1]] {
+			for _, g := range in.byHead["store|"+p.Args[0].Sort.Name] {
+				sub := map[*Term]*Term{}
+				if p.Args[0] == g || matchTerm(p.Args[0], g, own, sub) {
+					for a := g; a.Op == "store"; a = a.Args[0] {
+						if !a.Args[1].fv {
+							cset[p.Args[1]][a.Args[1]] = true
+						}
+					}
+					for v, t := range sub {
+						cset[v][t] = true
+					}
 				}
 			}
 		}
@@ -235,6 +276,13 @@ func (in *instantiator) candidates(q *Term) [][]*Term {
 			l = l[:in.maxPer]
 		}
 		out[i] = l
+		if debugInst {
+			var cs []string
+			for _, t := range l {
+				cs = append(cs, t.String())
+			}
+			fmt.Fprintf(os.Stderr, "INST %s %s (patterns %d): %s\n", q.Op, v.Name, len(in.patterns(q)), strings.Join(cs, " ; "))
+		}
 	}
 	return out
 }
@@ -250,6 +298,7 @@ func (in *instantiator) skolem(q *Term, v *Term, ctxKey string) *Term {
 }
 
 var quantMemo sync.Map
+var debugInst = os.Getenv("GOVC_DEBUG_INST") != ""
 
 func containsQuant(t *Term) bool {
 	if v, ok := quantMemo.Load(t); ok {
